@@ -325,6 +325,10 @@ def create_lut_rsqrt_int8_op(op):
             continue
         # Rsqrt is only defined for positive values
         x_real = max(0, x - zp_in)
+        if x_real == 0:
+            # Any value close to 0 is mapped to the max output value (also when the zero point is not -128)
+            values.append(quantized_max)
+            continue
         val = RSQRT_LUT[x_real]
         val = fp_math.multiply_by_quantized_multiplier(val, output_multiplier, output_shift - kshift) + zp_out
         lut_result = min(quantized_max, max(quantized_min, val))
